@@ -398,7 +398,11 @@ class Observer:
                 self._v("verdict", {"path": path, "flavour": flavour, "what": "exception raised by the body did not come back", "expected": ex[1],
                                     "got": out}, what="exception-identity")
             return
-        if f.get("ret") and checked and op.get("ret") is not None and ent["exit_env"] is not None and ent["exit_env"].get("wb"):
+        if f.get("ret") and checked and op.get("ret") is not None and not (ent["exit_env"] or {}).get("wb"):
+            # the return check depends on what the body bound; without the white-box memo (internal layout changed) the
+            # expectation cannot be computed: the call's return verdict is not judged
+            self.stats.inc("return_verdict_unjudged_no_white_box")
+        elif f.get("ret") and checked and op.get("ret") is not None and ent["exit_env"] is not None and ent["exit_env"].get("wb"):
             c2 = model.Ctx.from_snapshot(ent["exit_env"])
             outs, _ = model.match_array(self.scn["anns"][f["ret"]], op["ret"], c2)
             if "accept" in outs and got_exc is not None:
